@@ -13,8 +13,9 @@ RE_VSYM_SUM = re.compile(r"^Variable symbols changes summary: (\d+) Removed%s, (
 RE_UNREACH_SUM = re.compile(r"^Unreachable types summary: (\d+) removed%s, (\d+) changed%s, (\d+) added%s types?$" % (_FILT, _FILT, _FILT))
 RE_LEAF_SUM = re.compile(r"^Leaf changes summary: (\d+) artifacts? changed%s$" % _FILT)
 RE_LEAF_TYPES = re.compile(r"^Changed leaf types summary: (\d+)%s leaf types? changed$" % _FILT)
-RE_LEAF_FN = re.compile(r"^Removed/Changed/Added functions summary: (\d+) Removed%s, (\d+) Changed%s, (\d+) Added%s functions?$" % (_FILT, _FILT, _FILT))
-RE_LEAF_VAR = re.compile(r"^Removed/Changed/Added variables summary: (\d+) Removed%s, (\d+) Changed%s, (\d+) Added%s variables?$" % (_FILT, _FILT, _FILT))
+# in leaf mode the "(N filtered out)" of the Added counter is printed after the noun
+RE_LEAF_FN = re.compile(r"^Removed/Changed/Added functions summary: (\d+) Removed%s, (\d+) Changed%s, (\d+) Added functions?%s$" % (_FILT, _FILT, _FILT))
+RE_LEAF_VAR = re.compile(r"^Removed/Changed/Added variables summary: (\d+) Removed%s, (\d+) Changed%s, (\d+) Added variables?%s$" % (_FILT, _FILT, _FILT))
 
 SECTION_RULES = [
     ("fn-removed", re.compile(r"^(\d+) Removed functions?:$")),
